@@ -10,7 +10,8 @@ EXPLANATION = (
     "Aggregate, Union, Unwind or anything else; (R2) each such step is control-dependent on its variable-scope test "
     "(predicate variables disjoint from computed aliases; no variable introduced by the expand; for a join, used by the "
     "side it is pushed into and not by the other side); (R3) filters are pushed into join sides only while every join "
-    "the front ends build is Inner or Cross (otherwise the optimizer must test the join type); (R4, informational) the "
+    "the front ends build is Inner or Cross (otherwise the optimizer must test the join type); (R5) the variable collectors "
+    "behind those scope tests visit every sub-expression field of every expression kind; (R4, informational) the "
     "join-reorder collector keeps filter wrappers of its relations. Semantic equivalence of plans is not decided.")
 ASSUMPTIONS = ["variant names of LogicalOperator / JoinType identify operator kinds"]
 
